@@ -581,6 +581,120 @@ fn c01_struct_element__yt() {
     kani::cover!(is_ok && field_idx == 1, "cover.second_field");
 }
 
+// ---- contract: MapSerializer::{serialize_key, serialize_value}  (dict a{ih}: key `i` plain word, value `h` fd index) ----
+// state: inside a dict (after serialize_seq): current signature = key signature
+// ensures serialize_key:   pad(abs, 8) zero bytes (DICT_ENTRY alignment) ++ the key encoded UNDER THE KEY SIGNATURE
+//                          (i32 under `i` is the plain word: the fd list is not touched); signature still the key's
+//         serialize_value: the value encoded UNDER THE VALUE SIGNATURE (i32 under `h` = index of a new fd: the number
+//                          attached grows by one and the index is written); afterwards signature = key signature again
+// The probe value records the nested serializer state it is handed (see PeekSer above).
+// @unit C01.map_key props=C01,C02 kind=complete fn=<zvariant::dbus::ser::MapSerializer.as.serde::ser::SerializeMap>::serialize_key timeout=900
+#[cfg(not(verif_skip_c01_map_key__complete))]
+#[cfg(kani)]
+#[kani::proof]
+#[kani::stub(alloc::fmt::format, stub_format)]
+#[kani::stub(<Signature as std::clone::Clone>::clone, stub_sig_clone)]
+#[kani::stub(<str as std::string::ToString>::to_string, stub_str_to_string)]
+#[kani::unwind(3)]
+fn c01_map_key__complete() {
+    let buf0: [u8; 24] = kani::any();
+    let mut buf = buf0;
+    let w0: usize = kani::any();
+    kani::assume(w0 <= 8);
+    let n0: u32 = kani::any();
+    kani::assume(n0 < u32::MAX);
+    let v: i32 = kani::any();
+    let (bw0, bw1, p, big, n1, sig_is_key, ok, wpos) = {
+        let mut cur: Cur<'_> = Cursor::new(&mut buf[..]);
+        cur.set_position(w0 as u64);
+        let mut fds = ManuallyDrop::new(FdList::Number(n0));
+        let (mut ser, big) = any_ser(&mut cur, &mut fds, &SIG_I);
+        let bw0 = ser.0.bytes_written;
+        let p = spec_pad(ser.0.ctxt.position() + bw0, 8);
+        kani::assume(bw0 >= 8);
+        let mut map = ManuallyDrop::new(MapSerializer {
+            seq: SeqSerializer { ser: &mut *ser, start: bw0, first_padding: 0, array_signature: &SIG_DICT_IH },
+            key_signature: &SIG_I,
+            value_signature: &SIG_H,
+        });
+        let r = serde::ser::SerializeMap::serialize_key(&mut *map, &v);
+        let ok = r.is_ok();
+        core::mem::forget(r);
+        let bw1 = map.seq.ser.0.bytes_written;
+        let sig_is_key = core::ptr::eq(map.seq.ser.0.signature, &SIG_I);
+        let n1 = match &*map.seq.ser.0.fds { FdList::Number(n) => Some(*n), _ => None };
+        (bw0, bw1, p, big, n1, sig_is_key, ok, cur.position() as usize)
+    };
+    obl!("C01.map_key.ok", ok);
+    obl!("C01.map_key.entry_padded_to_8_then_4_byte_key", bw1 == bw0 + p + 4 && wpos == w0 + p + 4);
+    obl!("C01.map_key.signature_still_key", sig_is_key);
+    obl!("C01.map_key.key_is_not_treated_as_fd", n1 == Some(n0));
+    let i: usize = kani::any();
+    kani::assume(i < 24);
+    if i < w0 || i >= w0 + p + 4 {
+        obl!("C01.map_key.frame", buf[i] == buf0[i]);
+    } else if i < w0 + p {
+        obl!("C01.map_key.entry_padding_zero", buf[i] == 0);
+    } else {
+        obl!("C01.map_key.key_bytes_plain_word", buf[i] == spec_enc_byte(v as u32 as u64, 4, big, i - w0 - p));
+    }
+    kani::cover!(p == 7, "cover.pad7");
+    kani::cover!(p == 0, "cover.pad0");
+}
+
+// @unit C01.map_value props=C01,C02 kind=complete fn=<zvariant::dbus::ser::MapSerializer.as.serde::ser::SerializeMap>::serialize_value timeout=900
+#[cfg(not(verif_skip_c01_map_value__complete))]
+#[cfg(kani)]
+#[kani::proof]
+#[kani::stub(alloc::fmt::format, stub_format)]
+#[kani::stub(<Signature as std::clone::Clone>::clone, stub_sig_clone)]
+#[kani::stub(<str as std::string::ToString>::to_string, stub_str_to_string)]
+#[kani::unwind(3)]
+fn c01_map_value__complete() {
+    let buf0: [u8; 24] = kani::any();
+    let mut buf = buf0;
+    let w0: usize = kani::any();
+    kani::assume(w0 <= 8);
+    let n0: u32 = kani::any();
+    kani::assume(n0 < u32::MAX);
+    let v: i32 = kani::any();
+    let (bw0, bw1, p, big, n1, sig_is_key, ok, wpos) = {
+        let mut cur: Cur<'_> = Cursor::new(&mut buf[..]);
+        cur.set_position(w0 as u64);
+        let mut fds = ManuallyDrop::new(FdList::Number(n0));
+        let (mut ser, big) = any_ser(&mut cur, &mut fds, &SIG_I);
+        let bw0 = ser.0.bytes_written;
+        let p = spec_pad(ser.0.ctxt.position() + bw0, 4);
+        kani::assume(bw0 >= 8);
+        let mut map = ManuallyDrop::new(MapSerializer {
+            seq: SeqSerializer { ser: &mut *ser, start: bw0, first_padding: 0, array_signature: &SIG_DICT_IH },
+            key_signature: &SIG_I,
+            value_signature: &SIG_H,
+        });
+        let r = serde::ser::SerializeMap::serialize_value(&mut *map, &v);
+        let ok = r.is_ok();
+        core::mem::forget(r);
+        let bw1 = map.seq.ser.0.bytes_written;
+        let sig_is_key = core::ptr::eq(map.seq.ser.0.signature, &SIG_I);
+        let n1 = match &*map.seq.ser.0.fds { FdList::Number(n) => Some(*n), _ => None };
+        (bw0, bw1, p, big, n1, sig_is_key, ok, cur.position() as usize)
+    };
+    obl!("C01.map_value.ok", ok);
+    obl!("C01.map_value.value_aligned_to_its_own_type_not_to_8", bw1 == bw0 + p + 4 && wpos == w0 + p + 4);
+    obl!("C01.map_value.signature_restored_to_key", sig_is_key);
+    obl!("C01.map_value.encoded_under_value_signature_fd_attached", n1 == Some(n0 + 1));
+    let i: usize = kani::any();
+    kani::assume(i < 24);
+    if i < w0 || i >= w0 + p + 4 {
+        obl!("C01.map_value.frame", buf[i] == buf0[i]);
+    } else if i < w0 + p {
+        obl!("C01.map_value.padding_zero", buf[i] == 0);
+    } else {
+        obl!("C01.map_value.fd_index_written", buf[i] == spec_enc_byte(n0 as u64, 4, big, i - w0 - p));
+    }
+    kani::cover!(p == 3, "cover.pad3");
+}
+
 // ---- contract: serialized_size ("the size reported without writing equals the number of bytes written") -----------
 // The public entry point is run for real on fixed-size basic values (size pass through NullWriteSeek + the same
 // serializer): ensures Ok(size) with size = pad(position, A) + A -- exactly what the C01.ser_* units prove is WRITTEN
@@ -675,6 +789,8 @@ impl RtBits for i32 { fn rt_bits(self) -> u64 { self as u32 as u64 } }
 impl RtBits for u64 { fn rt_bits(self) -> u64 { self } }
 impl RtBits for i64 { fn rt_bits(self) -> u64 { self as u64 } }
 impl RtBits for f64 { fn rt_bits(self) -> u64 { self.to_bits() } }
+impl RtBits for i8 { fn rt_bits(self) -> u64 { self as u8 as u64 } }
+impl RtBits for f32 { fn rt_bits(self) -> u64 { if self.is_nan() { 0x7fc0_0000 } else { self.to_bits() as u64 } } } // NaN payload is not preserved by f32->f64->f32 on every target: compare NaN-ness only
 
 macro_rules! rt_fixed_unit {
     ($name:ident, $ty:ty, $sig:expr, $method:ident, $o_ok:literal, $o_val:literal, $o_len:literal) => {
@@ -752,6 +868,14 @@ rt_fixed_unit!(c02_rt_u64__complete, u64, &SIG_T, serialize_u64, "C02.rt_u64.dec
 // @unit C02.rt_f64 props=C02 kind=complete fn=<&mut.zvariant::dbus::Serializer.as.serde::Serializer>::serialize_f64,<&mut.zvariant::dbus::Deserializer.as.serde::Deserializer>::deserialize_f64 stubs=C03.parse_padding timeout=900
 #[cfg(not(verif_skip_c02_rt_f64__complete))]
 rt_fixed_unit!(c02_rt_f64__complete, f64, <f64 as Type>::SIGNATURE, serialize_f64, "C02.rt_f64.decodes", "C02.rt_f64.value_equal_bitwise_incl_nan", "C02.rt_f64.consumed_equals_written");
+
+// i8 and f32 have no D-Bus type: zvariant widens them to INT16 / DOUBLE on the wire and narrows on the way back
+// @unit C02.rt_i8 props=C02 kind=complete fn=<&mut.zvariant::dbus::Serializer.as.serde::Serializer>::serialize_i8,<&mut.zvariant::dbus::Deserializer.as.serde::Deserializer>::deserialize_i8 stubs=C03.parse_padding timeout=900
+#[cfg(not(verif_skip_c02_rt_i8__complete))]
+rt_fixed_unit!(c02_rt_i8__complete, i8, <i8 as Type>::SIGNATURE, serialize_i8, "C02.rt_i8.decodes", "C02.rt_i8.value_equal", "C02.rt_i8.consumed_equals_written");
+// @unit C02.rt_f32 props=C02 kind=complete fn=<&mut.zvariant::dbus::Serializer.as.serde::Serializer>::serialize_f32,<&mut.zvariant::dbus::Deserializer.as.serde::Deserializer>::deserialize_f32 stubs=C03.parse_padding timeout=900
+#[cfg(not(verif_skip_c02_rt_f32__complete))]
+rt_fixed_unit!(c02_rt_f32__complete, f32, <f32 as Type>::SIGNATURE, serialize_f32, "C02.rt_f32.decodes", "C02.rt_f32.value_equal", "C02.rt_f32.consumed_equals_written");
 
 #[cfg(all(kani, test))]
 mod playback {
